@@ -53,6 +53,26 @@ theorem printOK_ascii : PrintOK asciiChars where
   atWord := by decide
   rbWord := by decide
   nlWord := by decide
+  cmWord := by decide
+  eqWord := by decide
+  qWord := by decide
+  space := by
+    intro c h
+    have hof : ∀ n, c.toNat = n → c = Char.ofNat n := fun n hn => by rw [← hn, Char.ofNat_toNat]
+    simp only [asciiChars, Bool.or_eq_true, decide_eq_true_eq, Bool.and_eq_true] at h
+    rcases h with (((((h | h) | h) | h) | h) | h) | h
+    · subst h; exact Or.inr (by decide)
+    · subst h; exact Or.inr (by decide)
+    · exact Or.inl h
+    · subst h; exact Or.inr (by decide)
+    · rw [hof 11 h]; exact Or.inr (by decide)
+    · rw [hof 12 h]; exact Or.inr (by decide)
+    · have : c.toNat = 28 ∨ c.toNat = 29 ∨ c.toNat = 30 ∨ c.toNat = 31 := by omega
+      rcases this with h' | h' | h' | h'
+      · rw [hof 28 h']; exact Or.inr (by decide)
+      · rw [hof 29 h']; exact Or.inr (by decide)
+      · rw [hof 30 h']; exact Or.inr (by decide)
+      · rw [hof 31 h']; exact Or.inr (by decide)
   spSpace := by decide
   tabSpace := by decide
   nlSpace := by decide
